@@ -768,6 +768,18 @@ func init() {
 		e.Assume(e.tt.Eq(e.tt.FPFromBits(b, FP64Sort), t))
 		return b
 	}
+	I["math.Float32frombits"] = func(e *Exec, fn *ssa.Function, a []Value, c *Frame) Value {
+		return e.tt.FPFromBits(a[0].(*Term), FP32Sort)
+	}
+	I["math.Float32bits"] = func(e *Exec, fn *ssa.Function, a []Value, c *Frame) Value {
+		t := a[0].(*Term)
+		if t.Const {
+			return e.tt.BVConst(uint64(math.Float32bits(float32(t.F))), 32)
+		}
+		b := e.freshVar(fmt.Sprintf("f32bits!%d", len(e.pathAll)), BV(32))
+		e.Assume(e.tt.Eq(e.tt.FPFromBits(b, FP32Sort), t))
+		return b
+	}
 	I["math.Float64frombits"] = func(e *Exec, fn *ssa.Function, a []Value, c *Frame) Value {
 		return e.tt.FPFromBits(a[0].(*Term), FP64Sort)
 	}
